@@ -104,5 +104,49 @@ class TestLayout(unittest.TestCase):
                 self.assertLess(c, 5, "a space inside 20e3 is not a re-layout")
 
 
+class TestNewOperators(unittest.TestCase):
+    def test_glued_delimited_comment_only_where_tokens_survive(self):
+        lines = ["a <= b / c;", "d <= e&f;"]
+        si = layout.SeedInfo("t", lines)
+        ops = si.ops(("CDG", "CDI"))
+        self.assertTrue(ops)
+        for op in ops:
+            v = si.apply([op])
+            toks = [t for t in __import__("vsg.tokens", fromlist=["x"]).create(v[op[1]]) if not t.isspace()]
+            i, j = toks.index("/*"), toks.index("*/")
+            self.assertEqual(toks[:i] + toks[j + 1:], [t for t in __import__("vsg.tokens", fromlist=["x"]).create(lines[op[1]]) if not t.isspace()], op)
+
+    def test_identifier_case_mismatch_needs_two_occurrences(self):
+        lines = ["architecture rtl of e is", "  signal s1 : std_logic;", "  signal lonely : std_logic;", "begin", "  s1 <= '1';", "end architecture rtl;"]
+        si = layout.SeedInfo("t", lines)
+        ops = si.ops(("UPI",))
+        hit = {lines[ln][c:].split()[0].strip(";") for k, ln, c in ops}
+        self.assertIn("s1", hit)
+        self.assertNotIn("lonely", hit)
+        self.assertNotIn("signal", hit)  # keywords are not identifiers
+
+
+class TestMinimisation(unittest.TestCase):
+    def test_violation_of_the_undeviated_seed_is_attributed_to_it(self):
+        from vsgmc import explore, universe
+
+        def fn(item):
+            r = explore.Result()
+            # "fails" on every variant of the seed, and additionally in its own way when a line break is inserted
+            r.violations.append({"key": ("rule_x", "always"), "detail": {}, "item": {k: v for k, v in item.items() if k != "lines"}})
+            if any(o[0] == "NL" for o in item.get("ops", ())):
+                r.violations.append({"key": ("rule_x", "only_with_nl"), "detail": {}, "item": {k: v for k, v in item.items() if k != "lines"}})
+            return r
+
+        sid = universe.corpus.small_slice(max_lines=25)[0]
+        it = universe.one_dev([sid], ("NL",))[0]
+        explore._worker_fn, explore._worker_horizon = fn, 30.0
+        explore._base_keys.clear()
+        (_, r), = explore._run_chunk([(0, it)])
+        keys = {v["key"] for v in r.violations}
+        self.assertIn(("rule_x", "always", "@-"), keys)
+        self.assertIn(("rule_x", "only_with_nl", "@NL"), keys)
+
+
 if __name__ == "__main__":
     unittest.main()
